@@ -1,3 +1,6 @@
+// replay for property C13, harness c13_segchange_h4 (/verif/harness/pocketscion/c13_router.rs)
+// failed checks reported by CBMC:
+//   "segment change over a forbidden link-type pair was forwarded" @ ../harness/pocketscion/c13_router.rs:157:13 in function network::scion::routing::spec::verif_c13::segchange::<68>
 //! verif-attach: file=crates/pocketscion/src/network/scion/routing/spec.rs crate=pocketscion mod=verif_c13
 //!
 //! C13 — the simulated data plane, one AS at a time: `StdRoutingLogic::handle_standard_path`,
@@ -351,3 +354,376 @@ fn c13_route_local_empty() {
 fn c13_route_local_std() {
     route_local::<72>(1, 72)
 }
+
+#[cfg(test)]
+mod verif_playback {
+    use super::*;
+/// Test generated for harness `network::scion::routing::spec::verif_c13::c13_segchange_h4` 
+///
+/// Check for `assertion`: ""segment change over a forbidden link-type pair was forwarded""
+///
+/// # Warning
+///
+/// Concrete playback tests combined with stubs or contracts is highly
+/// experimental, and subject to change.
+///
+/// The original harness has stubs which are not applied to this test.
+/// This may cause a mismatch of non-deterministic values if the stub
+/// creates any non-deterministic value.
+/// The execution path may also differ, which can be used to refine the stub
+/// logic.
+
+#[test]
+fn kani_concrete_playback_c13_segchange_h4_4984157594420654289() {
+    let concrete_vals: Vec<Vec<u8>> = vec![
+        // 0
+        vec![0, 0],
+        // 4294967295
+        vec![255, 255, 255, 255],
+        // 0
+        vec![0, 0],
+        // 11
+        vec![11, 0],
+        // 16395
+        vec![11, 64],
+        // 1
+        vec![1],
+        // 0
+        vec![0],
+        // 0
+        vec![0],
+        // 2
+        vec![2],
+        // 1
+        vec![1],
+        // 1
+        vec![1],
+        // 1
+        vec![1],
+        // 252
+        vec![252],
+        // 32
+        vec![32],
+        // 128
+        vec![128],
+        // 255
+        vec![255],
+        // 255
+        vec![255],
+        // 255
+        vec![255],
+        // 255
+        vec![255],
+        // 255
+        vec![255],
+        // 255
+        vec![255],
+        // 255
+        vec![255],
+        // 255
+        vec![255],
+        // 1
+        vec![1],
+        // 255
+        vec![255],
+        // 255
+        vec![255],
+        // 255
+        vec![255],
+        // 255
+        vec![255],
+        // 255
+        vec![255],
+        // 255
+        vec![255],
+        // 253
+        vec![253],
+        // 255
+        vec![255],
+        // 255
+        vec![255],
+        // 255
+        vec![255],
+        // 255
+        vec![255],
+        // 255
+        vec![255],
+        // 255
+        vec![255],
+        // 0
+        vec![0],
+        // 0
+        vec![0],
+        // 255
+        vec![255],
+        // 253
+        vec![253],
+        // 255
+        vec![255],
+        // 255
+        vec![255],
+        // 254
+        vec![254],
+        // 124
+        vec![124],
+        // 64
+        vec![64],
+        // 11
+        vec![11],
+        // 64
+        vec![64],
+        // 11
+        vec![11],
+        // 255
+        vec![255],
+        // 255
+        vec![255],
+        // 255
+        vec![255],
+        // 255
+        vec![255],
+        // 255
+        vec![255],
+        // 255
+        vec![255],
+        // 253
+        vec![253],
+        // 131
+        vec![131],
+        // 0
+        vec![0],
+        // 0
+        vec![0],
+        // 0
+        vec![0],
+        // 0
+        vec![0],
+        // 0
+        vec![0],
+        // 255
+        vec![255],
+        // 255
+        vec![255],
+        // 255
+        vec![255],
+        // 255
+        vec![255],
+        // 255
+        vec![255],
+        // 255
+        vec![255],
+        // 255
+        vec![255],
+        // 255
+        vec![255],
+        // 255
+        vec![255],
+        // 255
+        vec![255],
+        // 255
+        vec![255],
+        // 255
+        vec![255],
+        // 255
+        vec![255],
+        // 255
+        vec![255],
+        // 255
+        vec![255],
+        // 255
+        vec![255],
+        // 255
+        vec![255],
+    ];
+    let mut concrete_vals = concrete_vals;
+    concrete_vals.extend(std::iter::repeat(vec![0u8]).take(8192));
+    kani::concrete_playback_run(concrete_vals, c13_segchange_h4);
+}
+
+/// Test generated for harness `network::scion::routing::spec::verif_c13::c13_segchange_h4` 
+///
+/// Check for `cover`: "segment change forwarded"
+///
+/// # Warning
+///
+/// Concrete playback tests combined with stubs or contracts is highly
+/// experimental, and subject to change.
+///
+/// The original harness has stubs which are not applied to this test.
+/// This may cause a mismatch of non-deterministic values if the stub
+/// creates any non-deterministic value.
+/// The execution path may also differ, which can be used to refine the stub
+/// logic.
+
+#[test]
+fn kani_concrete_playback_c13_segchange_h4_9785896840752898438() {
+    let concrete_vals: Vec<Vec<u8>> = vec![
+        // 16387
+        vec![3, 64],
+        // 4294967295
+        vec![255, 255, 255, 255],
+        // 0
+        vec![0, 0],
+        // 0
+        vec![0, 0],
+        // 0
+        vec![0, 0],
+        // 1
+        vec![1],
+        // 0
+        vec![0],
+        // 0
+        vec![0],
+        // 2
+        vec![2],
+        // 2
+        vec![2],
+        // 0
+        vec![0],
+        // 1
+        vec![1],
+        // 252
+        vec![252],
+        // 32
+        vec![32],
+        // 128
+        vec![128],
+        // 255
+        vec![255],
+        // 255
+        vec![255],
+        // 255
+        vec![255],
+        // 255
+        vec![255],
+        // 255
+        vec![255],
+        // 255
+        vec![255],
+        // 255
+        vec![255],
+        // 255
+        vec![255],
+        // 0
+        vec![0],
+        // 255
+        vec![255],
+        // 255
+        vec![255],
+        // 255
+        vec![255],
+        // 255
+        vec![255],
+        // 255
+        vec![255],
+        // 255
+        vec![255],
+        // 255
+        vec![255],
+        // 255
+        vec![255],
+        // 255
+        vec![255],
+        // 255
+        vec![255],
+        // 255
+        vec![255],
+        // 255
+        vec![255],
+        // 255
+        vec![255],
+        // 255
+        vec![255],
+        // 255
+        vec![255],
+        // 255
+        vec![255],
+        // 255
+        vec![255],
+        // 255
+        vec![255],
+        // 255
+        vec![255],
+        // 254
+        vec![254],
+        // 124
+        vec![124],
+        // 0
+        vec![0],
+        // 0
+        vec![0],
+        // 255
+        vec![255],
+        // 255
+        vec![255],
+        // 255
+        vec![255],
+        // 255
+        vec![255],
+        // 255
+        vec![255],
+        // 255
+        vec![255],
+        // 255
+        vec![255],
+        // 255
+        vec![255],
+        // 254
+        vec![254],
+        // 255
+        vec![255],
+        // 0
+        vec![0],
+        // 0
+        vec![0],
+        // 0
+        vec![0],
+        // 0
+        vec![0],
+        // 255
+        vec![255],
+        // 255
+        vec![255],
+        // 255
+        vec![255],
+        // 255
+        vec![255],
+        // 255
+        vec![255],
+        // 255
+        vec![255],
+        // 255
+        vec![255],
+        // 255
+        vec![255],
+        // 255
+        vec![255],
+        // 255
+        vec![255],
+        // 255
+        vec![255],
+        // 255
+        vec![255],
+        // 255
+        vec![255],
+        // 255
+        vec![255],
+        // 255
+        vec![255],
+        // 255
+        vec![255],
+        // 255
+        vec![255],
+        // 255
+        vec![255],
+    ];
+    let mut concrete_vals = concrete_vals;
+    concrete_vals.extend(std::iter::repeat(vec![0u8]).take(8192));
+    kani::concrete_playback_run(concrete_vals, c13_segchange_h4);
+}
+}
+
+// native replay (full trace; cargo kani playback, dev profile, real code):
+//   kani_concrete_playback_c13_segchange_h4_4984157594420654289: reproduced (segment change over a forbidden link-type pair was forwarded)
+//   kani_concrete_playback_c13_segchange_h4_9785896840752898438: did not reproduce (cover:segment change forwarded)
+// re-run: bin/check C13 --replay /verif/replays/C13/c13_segchange_h4.rs
